@@ -228,6 +228,30 @@ fn check_int(ctx: &mut Ctx, how: &str, i: &Int, v: i128) {
         Ok(Err(e)) => ctx.violation(format!("{}/Int::json/rejects-in-range", P), format!("from_json(to_json({})) = Err({:?})", v, e)),
         Err(p) => ctx.violation(panic_sig(P, "Int::json", &p), p.msg.clone()),
     }
+    // the integer inside a metadatum, written out as JSON under each schema, as a value and as a map key:
+    // the exact number (or, for a key under the no-conversion schema, its decimal string) or an error
+    let md_val = TransactionMetadatum::new_int(i);
+    let mut mm = MetadataMap::new();
+    mm.insert(&md_val, &TransactionMetadatum::new_int(&Int::new_i32(1)));
+    let md_key = TransactionMetadatum::new_map(&mm);
+    for (schema, sname) in [(MetadataJsonSchema::NoConversions, "NoConversions"), (MetadataJsonSchema::BasicConversions, "BasicConversions"), (MetadataJsonSchema::DetailedSchema, "DetailedSchema")] {
+        for (md, as_key) in [(&md_val, false), (&md_key, true)] {
+            match guard(|| decode_metadatum_to_json_str(md, schema)) {
+                Err(p) => ctx.violation(panic_sig(P, "decode_metadatum_to_json_str", &p), format!("{} {} : {}", v, sname, p.msg)),
+                Ok(Err(_)) => ctx.hit("metadatum-int-to-json-err"),
+                Ok(Ok(js)) => {
+                    ctx.hit("metadatum-int-to-json-ok");
+                    // every integer literal that appears in the document must be `v` (the map's value 1 aside)
+                    let digits: Vec<String> = js.split(|c: char| !(c.is_ascii_digit() || c == '-')).filter(|t| !t.is_empty() && t != &"-").map(|t| t.to_string()).collect();
+                    let want = v.to_string();
+                    let ok = if as_key { digits.iter().any(|d| *d == want) && digits.iter().all(|d| *d == want || d == "1") } else { digits.len() == 1 && digits[0] == want };
+                    if !ok {
+                        ctx.violation(format!("{}/metadatum-int-to-json/{}/wrong-number/{}", P, sname, if as_key { "key" } else { "value" }), format!("{} came out as {}", v, js));
+                    }
+                }
+            }
+        }
+    }
 }
 
 const DEC: [&str; 24] = [
